@@ -15,20 +15,20 @@ import (
 
 // op is one operation of a unit.
 type op struct {
-	K    string `json:"k"`              // read | write | call | defc | callc | render | if | for
+	K    string `json:"k"`              // read | write | ptrw | inc | tuple | call | defc | callc | render | if | for
 	V    string `json:"v,omitempty"`    // variable: "G0" or "p.G0"
-	F    string `json:"f,omitempty"`    // field of a struct variable ("A"), "" = the variable itself
+	F    string `json:"f,omitempty"`    // component: field of a struct variable ("A", "B") or index of an array variable ("0".."2"), "" = the variable itself
 	ID   int    `json:"id,omitempty"`   // site id (read/callc) or value id (write/defc)
 	Name string `json:"name,omitempty"` // macro, closure or partial name
 	W    bool   `json:"w,omitempty"`    // defc: the closure writes (else it reads)
 	N    int    `json:"n,omitempty"`    // for: iterations
-	Body []op   `json:"body,omitempty"` // if / for
+	Body []op   `json:"body,omitempty"` // if / for; tuple: the write ops of the tuple assignment, left to right
 }
 
 // glob is a declared global variable.
 type glob struct {
 	Name string `json:"name"`
-	Type string `json:"type"` // string | int | T
+	Type string `json:"type"` // string | int | T (struct{A, B int}) | A3 ([3]int)
 }
 
 // macro is a macro declaration.
@@ -44,6 +44,7 @@ type prog struct {
 	PkgVars  []glob          `json:"pkg_vars"` // variables of the auto-imported package p (same names as Globals)
 	Extends  bool            `json:"extends"`  // root extends layout.html; Main lives in the layout
 	ImportAs string          `json:"import_as"`
+	LibVar   string          `json:"lib_var,omitempty"` // package variable (int, initial value 77) declared in lib.html; referred to as "L:<name>"
 	Main     []op            `json:"main"`     // top-level flow; ops with K=="decl" declare a macro at that point
 	Macros   []macro         `json:"macros"`
 	Partials map[string][]op `json:"partials"`
@@ -59,6 +60,9 @@ func (p *prog) macro(name string) *macro {
 }
 
 func (p *prog) typeOf(v string) string {
+	if strings.HasPrefix(v, "L:") {
+		return "int"
+	}
 	name := strings.TrimPrefix(v, "p.")
 	for _, g := range p.Globals {
 		if g.Name == name {
@@ -77,24 +81,45 @@ func lit(typ string, id int, field string) string {
 		return fmt.Sprintf("%q", fmt.Sprintf("w%d", id))
 	case typ == "T" && field == "":
 		return fmt.Sprintf("T{A: %d}", 1000+id)
+	case typ == "A3" && field == "":
+		return fmt.Sprintf("[3]int{%d}", 1000+id)
 	}
 	return fmt.Sprintf("%d", 1000+id)
 }
 
-func ref(o op) string {
-	if o.F != "" {
-		return o.V + "." + o.F
+// components returns the components of a variable of type typ.
+func components(typ string) []string {
+	switch typ {
+	case "T":
+		return []string{"A", "B"}
+	case "A3":
+		return []string{"0", "1", "2"}
 	}
-	return o.V
+	return nil
+}
+
+// ref writes the reference to the variable (or its component) of o in file.
+func (p *prog) ref(o op, file string) string {
+	v := o.V
+	if strings.HasPrefix(v, "L:") {
+		v = v[2:]
+		if file != "lib" && p.ImportAs != "" {
+			v = p.ImportAs + "." + v
+		}
+	}
+	switch {
+	case o.F == "":
+		return v
+	case p.typeOf(o.V) == "A3":
+		return v + "[" + o.F + "]"
+	}
+	return v + "." + o.F
 }
 
 func (p *prog) retType(o op) string {
 	t := p.typeOf(o.V)
-	if t == "T" {
-		if o.F != "" {
-			return "int"
-		}
-		return "T"
+	if o.F != "" {
+		return "int"
 	}
 	return t
 }
@@ -106,10 +131,26 @@ func (p *prog) renderOps(b *strings.Builder, ops []op, file string) {
 			if p.typeOf(o.V) == "T" && o.F == "" {
 				fmt.Fprintf(b, "r%d:{{ %s.A }};", o.ID, o.V)
 			} else {
-				fmt.Fprintf(b, "r%d:{{ %s }};", o.ID, ref(o))
+				fmt.Fprintf(b, "r%d:{{ %s }};", o.ID, p.ref(o, file))
 			}
 		case "write":
-			fmt.Fprintf(b, "{%% %s = %s %%}", ref(o), lit(p.typeOf(o.V), o.ID, o.F))
+			fmt.Fprintf(b, "{%% %s = %s %%}", p.ref(o, file), lit(p.typeOf(o.V), o.ID, o.F))
+		case "ptrw":
+			// a write through a pointer to the variable or to its component
+			fmt.Fprintf(b, "{%% q%d := &%s %%}{%% *q%d = %s %%}", o.ID, p.ref(o, file), o.ID, lit(p.typeOf(o.V), o.ID, o.F))
+		case "inc":
+			if o.ID%2 == 0 {
+				fmt.Fprintf(b, "{%% %s++ %%}", p.ref(o, file))
+			} else {
+				fmt.Fprintf(b, "{%% %s += 1 %%}", p.ref(o, file))
+			}
+		case "tuple":
+			var lhs, rhs []string
+			for _, w := range o.Body {
+				lhs = append(lhs, p.ref(w, file))
+				rhs = append(rhs, lit(p.typeOf(w.V), w.ID, w.F))
+			}
+			fmt.Fprintf(b, "{%% %s = %s %%}", strings.Join(lhs, ", "), strings.Join(rhs, ", "))
 		case "call":
 			m := p.macro(o.Name)
 			name := o.Name
@@ -124,10 +165,10 @@ func (p *prog) renderOps(b *strings.Builder, ops []op, file string) {
 			b.WriteString("{% end macro %}")
 		case "defc":
 			if o.W {
-				fmt.Fprintf(b, "{%% %s := func() { %s = %s } %%}", o.Name, ref(o), lit(p.typeOf(o.V), o.ID, o.F))
+				fmt.Fprintf(b, "{%% %s := func() { %s = %s } %%}", o.Name, p.ref(o, file), lit(p.typeOf(o.V), o.ID, o.F))
 			} else {
 				rt := p.retType(o)
-				r := ref(o)
+				r := p.ref(o, file)
 				if rt == "T" {
 					rt, r = "int", o.V+".A"
 				}
@@ -158,6 +199,9 @@ func (p *prog) render() map[string]string {
 	files := map[string]string{}
 	var lib, root, layout strings.Builder
 	hasLib := false
+	if p.LibVar != "" {
+		fmt.Fprintf(&lib, "{%% var %s = 77 %%}\n", p.LibVar)
+	}
 	for _, m := range p.Macros {
 		if m.File == "lib" {
 			hasLib = true
@@ -212,28 +256,71 @@ type pgen struct {
 	r       *rand.Rand
 	p       *prog
 	id      int
-	vars    []string // "G0", "p.G0", ...
+	vars    []string // "G0", "p.G0", "L:K0", ...
+	// noQualifiedInClosure: scope "qualified-package-var-in-closure": macros and
+	// function literals of the importing file do not refer to the package
+	// variable of a file imported with a name (lib.K0)
+	noQualifiedInClosure bool
+	inLib                bool // generating a unit of lib.html
 	noMacro bool     // scope "first-ref-in-macro": keep the first reference of every global at top level
 }
 
 func (g *pgen) next() int { g.id++; return g.id }
 
-func (g *pgen) pickVar() (string, string) {
+// pickVar picks a variable and, for struct and array variables, mostly one of
+// its components; whole is false when a component is required (reads).
+func (g *pgen) pickVar(whole bool) (string, string) {
 	v := g.vars[g.r.Intn(len(g.vars))]
 	f := ""
-	if g.p.typeOf(v) == "T" && g.r.Intn(3) > 0 {
-		f = "A"
+	if c := components(g.p.typeOf(v)); c != nil && (!whole || g.r.Intn(4) > 0) {
+		f = c[g.r.Intn(len(c))]
 	}
 	return v, f
 }
 
-// simple returns a read or a write.
+// simple returns a read or one of the forms of write.
 func (g *pgen) simple() op {
-	v, f := g.pickVar()
-	if g.r.Intn(5) < 3 {
+	switch w := g.r.Intn(100); {
+	case w < 55:
+		v, f := g.pickVar(false)
 		return op{K: "read", V: v, F: f, ID: g.next()}
+	case w < 75:
+		v, f := g.pickVar(true)
+		return op{K: "write", V: v, F: f, ID: g.next()}
+	case w < 85:
+		// through a pointer to the variable, to a field, to an element
+		v, f := g.pickVar(true)
+		return op{K: "ptrw", V: v, F: f, ID: g.next()}
+	case w < 92:
+		v, f := g.pickVar(false)
+		if t := g.p.typeOf(v); t == "string" {
+			return op{K: "write", V: v, F: f, ID: g.next()}
+		}
+		return op{K: "inc", V: v, F: f, ID: g.next()}
 	}
-	return op{K: "write", V: v, F: f, ID: g.next()}
+	// a tuple assignment, mostly to several components of one variable
+	var ws []op
+	seen := map[string]bool{}
+	v, _ := g.pickVar(true)
+	n := 2 + g.r.Intn(2)
+	for i := 0; i < n; i++ {
+		if g.r.Intn(4) == 0 {
+			v, _ = g.pickVar(true)
+		}
+		f := ""
+		if c := components(g.p.typeOf(v)); c != nil {
+			f = c[g.r.Intn(len(c))]
+		}
+		if seen[v+"|"+f] {
+			continue
+		}
+		seen[v+"|"+f] = true
+		ws = append(ws, op{K: "write", V: v, F: f, ID: g.next()})
+	}
+	if len(ws) < 2 {
+		return ws[0]
+	}
+	return op{K: "tuple", Body: ws}
 }
 
 // body generates the ops of a unit. callable lists the macros that may be
@@ -247,9 +334,12 @@ func (g *pgen) body(n, depth int, callable []string, partials []string, closures
 		case w < 68 && len(callable) > 0:
 			ops = append(ops, op{K: "call", Name: callable[g.r.Intn(len(callable))]})
 		case w < 76 && closures:
-			v, f := g.pickVar()
-			name := fmt.Sprintf("c%d", g.next())
 			wr := g.r.Intn(2) == 0
+			v, f := g.pickVar(wr)
+			for g.noQualifiedInClosure && g.p.ImportAs != "" && strings.HasPrefix(v, "L:") && !g.inLib {
+				v, f = g.pickVar(wr)
+			}
+			name := fmt.Sprintf("c%d", g.next())
 			ops = append(ops, op{K: "defc", Name: name, V: v, F: f, ID: g.next(), W: wr})
 			if g.r.Intn(2) == 0 {
 				ops = append(ops, g.simple())
@@ -277,10 +367,10 @@ func (g *pgen) body(n, depth int, callable []string, partials []string, closures
 // generate builds a random program. If firstRefTopLevel is set, every global is
 // read once at the very start of the top-level flow (keeps the sweep away from
 // the construct of a recorded finding).
-func generate(r *rand.Rand, firstRefTopLevel bool) *prog {
+func generate(r *rand.Rand, firstRefTopLevel, noQualifiedInClosure bool) *prog {
 	p := &prog{Partials: map[string][]op{}}
-	g := &pgen{r: r, p: p}
-	types := []string{"string", "int", "T"}
+	g := &pgen{r: r, p: p, noQualifiedInClosure: noQualifiedInClosure}
+	types := []string{"string", "int", "T", "A3", "T", "A3"}
 	ng := 1 + r.Intn(4)
 	for i := 0; i < ng; i++ {
 		gl := glob{Name: fmt.Sprintf("G%d", i), Type: types[r.Intn(len(types))]}
@@ -307,10 +397,30 @@ func generate(r *rand.Rand, firstRefTopLevel bool) *prog {
 	// root/layout macros (may call lib macros and earlier macros of their file)
 	var libNames, rootNames, layoutNames []string
 	nl := r.Intn(3)
+	base := g.vars
+	withLib := base
+	if nl > 0 && r.Intn(2) == 0 {
+		// a package variable of the imported file: visible in the imported file
+		// and in the importing file, never a global of the template
+		p.LibVar = "K0"
+		withLib = append(append([]string{}, base...), "L:K0")
+	}
+	g.vars, g.inLib = withLib, true
 	for i := 0; i < nl; i++ {
 		name := fmt.Sprintf("L%d", i)
 		p.Macros = append(p.Macros, macro{Name: name, File: "lib", Ops: g.body(1+r.Intn(4), 1, libNames, partials, true)})
 		libNames = append(libNames, name)
+	}
+	g.inLib = false
+	// macros of the importing file see the library's variable (not through a
+	// qualified name under the scope)
+	inMacros := withLib
+	if noQualifiedInClosure && p.ImportAs != "" {
+		inMacros = base
+	}
+	g.vars = base
+	if !p.Extends {
+		g.vars = inMacros // the root imports the library
 	}
 	nr := r.Intn(3)
 	if p.Extends && nr == 0 {
@@ -326,6 +436,7 @@ func generate(r *rand.Rand, firstRefTopLevel bool) *prog {
 		p.Macros = append(p.Macros, macro{Name: name, File: "root", Ops: g.body(1+r.Intn(4), 1, callable, partials, true)})
 		rootNames = append(rootNames, name)
 	}
+	g.vars = inMacros // the layout imports the library
 	if p.Extends {
 		ny := r.Intn(2)
 		for i := 0; i < ny; i++ {
@@ -334,6 +445,7 @@ func generate(r *rand.Rand, firstRefTopLevel bool) *prog {
 			layoutNames = append(layoutNames, name)
 		}
 	}
+	g.vars = withLib
 	// main flow: declarations of the file's own macros interleaved with ops
 	var declHere []string
 	if p.Extends {
@@ -347,8 +459,12 @@ func generate(r *rand.Rand, firstRefTopLevel bool) *prog {
 	}
 	var main []op
 	if firstRefTopLevel {
-		for _, v := range g.vars {
-			main = append(main, op{K: "read", V: v, ID: g.next()})
+		for _, v := range base {
+			f := ""
+			if c := components(p.typeOf(v)); c != nil {
+				f = c[0]
+			}
+			main = append(main, op{K: "read", V: v, F: f, ID: g.next()})
 		}
 	}
 	for _, d := range declHere {
